@@ -182,9 +182,10 @@ func (m *maxInflightWrapper) SetLimit(acquireResult *AcquireResult) bool {
 		m.lock.Lock()
 		if atomic.LoadUint32(&m.serverUnavailable) == 0 {
 			inflight := m.meter.MaxInflight()
-			localMax := m.fcc.local.localConfig.MaxRequestsInflight.Max
-			if inflight < localMax {
-				inflight = localMax
+			// the schema's type may have changed since this wrapper was built (it is replaced by
+			// the next reconcile round): then there is no local limit of this type to fall back to
+			if local := m.fcc.local.localConfig.MaxRequestsInflight; local != nil && inflight < local.Max {
+				inflight = local.Max
 			}
 			if inflight > m.max {
 				inflight = m.max
@@ -394,9 +395,10 @@ func (m *tokenBucketWrapper) SetLimit(acquireResult *AcquireResult) bool {
 		m.lock.Lock()
 		if atomic.LoadUint32(&m.serverUnavailable) == 0 {
 			lastQPS := m.meter.Rate()
-			localQPS := m.fcc.local.localConfig.TokenBucket.QPS
-			if lastQPS < float64(localQPS) {
-				lastQPS = float64(localQPS)
+			// the schema's type may have changed since this wrapper was built (it is replaced by
+			// the next reconcile round): then there is no local limit of this type to fall back to
+			if local := m.fcc.local.localConfig.TokenBucket; local != nil && lastQPS < float64(local.QPS) {
+				lastQPS = float64(local.QPS)
 			}
 			if lastQPS > float64(m.qps) {
 				lastQPS = float64(m.qps)
